@@ -222,6 +222,14 @@ func (m *c19Model) step(op c19Op) c19Exp {
 	if m.desync {
 		return c19Exp{unk: true}
 	}
+	if strings.HasPrefix(op.Op, "wrong:") {
+		if m.past && m.eof == "reset" {
+			// a reset stream that is past makes its "other attempt" before it looks at the kind of operation: whether it
+			// still says past afterwards is not asserted (the statement does not list refused operations)
+			m.fed = true
+		}
+		return c19Exp{err: "error(permission_error(input,"}
+	}
 	switch op.Op {
 	case "feed":
 		if m.seg < len(m.segs)-1 {
@@ -468,6 +476,14 @@ func c19Gen(r *kit.Run) (*c19Scenario, *c19Source) {
 			choices = append(choices, "skip", "skip", "skip")
 		}
 		op.Op = choices[g.Choose(len(choices))]
+		if g.Choose(25) == 0 {
+			// an operation of the other stream type: it must be refused and leave the cursor and the end-of-stream state alone
+			if sc.Type == "text" {
+				op.Op = []string{"wrong:get_byte", "wrong:peek_byte"}[g.Choose(2)]
+			} else {
+				op.Op = []string{"wrong:get_char", "wrong:peek_char"}[g.Choose(2)]
+			}
+		}
 		// bias towards changes of kind after a read/peek
 		if (strings.HasPrefix(last, "read") || strings.HasPrefix(last, "peek")) && g.Choose(2) == 0 {
 			if sc.Type == "text" {
@@ -523,6 +539,12 @@ func c19Gen(r *kit.Run) (*c19Scenario, *c19Source) {
 
 func c19OpText(op c19Op, mode string, v string, text bool) string {
 	s := "S"
+	if strings.HasPrefix(op.Op, "wrong:") {
+		if mode == "W" {
+			return fmt.Sprintf("%s(%s)", op.Op[6:], v)
+		}
+		return fmt.Sprintf("%s(%s, %s)", op.Op[6:], s, v)
+	}
 	switch op.Op {
 	case "get_char", "peek_char", "get_code", "peek_code", "get_byte", "peek_byte", "read":
 		if mode == "W" {
@@ -814,6 +836,8 @@ func (i statInfo) Sys() interface{}   { return nil }
 func c19Sig(sc *c19Scenario, ops []c19Op, n int, what string) string {
 	cat := func(op string) string {
 		switch {
+		case strings.HasPrefix(op, "wrong:"):
+			return "wrong-type"
 		case strings.HasPrefix(op, "peek"):
 			return "peek"
 		case strings.HasPrefix(op, "get"), op == "skip":
